@@ -105,6 +105,15 @@ def run_py(script, arg_json, timeout=600):
     except OSError:
         pass
     line = out.stdout.strip().splitlines()[-1] if out.stdout.strip() else ""
+    if out.returncode < 0 and script == "run_standin.py":
+        # the interpreter running the REAL library under the stand-in was killed by a signal (typically SIGSEGV from an
+        # out-of-bounds access in a compiled kernel): the library did not return a result where the property promises one
+        where = [l.strip() for l in out.stderr.splitlines() if "uxarray" in l and "File" in l][:3]
+        return {"cases": 0, "distinct": 0, "bound": "aborted: interpreter killed by signal %d" % (-out.returncode), "samples": [],
+                "failures": [{"key": "interpreter_crash:signal%d" % (-out.returncode),
+                              "what": "the interpreter running uxarray inside the stand-in was killed by signal %d" % (-out.returncode),
+                              "violated": "the operation returns a result", "inputs": {"stand-in": arg_json.get("name")},
+                              "observed": (where or out.stderr[-600:]), "expected": "a result"}]}
     try:
         return json.loads(line)
     except Exception:
